@@ -1,5 +1,6 @@
 SPECIFICATION Spec
 CONSTANTS
+  TrackCov = TRUE
   Thread = {"t1", "t2", "t3"}
   Creator = "t1"
   MaxHandles = 3
